@@ -146,6 +146,9 @@ def withoutExtension (p : List Char) : Option (List Char) :=
 
 def joinPaths (base : List Char) (ws : List (List Char)) : List Char := ws.foldl pushStr base
 
+/-- `absolute_path(p)` (src/function.rs): `working_directory.join(p).lexiclean()` -/
+def absolutePath (wd p : List Char) : List Char := lexiclean (pushStr wd p)
+
 /-! ### `Search::clean` (src/search.rs): the paths given with `--justfile` / `--working-directory`
 are joined to the invocation directory and cleaned by a loop of their own — a `..` removes the
 name before it and is otherwise dropped -/
